@@ -281,6 +281,82 @@ impl H {
     }
 }
 
+
+// ------------------------------------------------------------------ (D) completed saves of datasets at the length-encoding boundaries
+
+const SIZE_KINDS: [&str; 9] = ["string value", "key name", "list count", "set count", "hash count", "zset count", "list element length", "hash field and value length", "stream value length"];
+
+fn boundary_sizes(thorough: bool) -> Vec<usize> {
+    if thorough { vec![1, 62, 63, 64, 65, 255, 256, 16382, 16383, 16384, 16385, 65535, 65536, 65537] } else { vec![1, 63, 64, 16383, 16384, 16385, 65536] }
+}
+
+/// A save that completes must leave a dump that loads completely and equals the dataset, whatever sizes the strings,
+/// names and collections have: the writer switches between three length forms at 64 and 16384 (a seeded off-by-one in
+/// the writer's 14-bit form produced an unloadable dump for exactly 16384 while every other size was fine).
+fn run_sizes(h: &mut H, mode: &str, kind: usize, size: usize) -> Result<Vec<Value>, String> {
+    h.ensure()?;
+    let mut problems = Vec::new();
+    h.must_ok(&["FLUSHALL"])?;
+    // bystanders in several shards and another database: they must all come back too
+    for k in ["a", "b", "k", "k2", "ab", "zz"] {
+        h.must_ok(&["SET", k, "bystander"])?;
+    }
+    h.must_ok(&["SELECT", "3"])?;
+    h.must_ok(&["RPUSH", "other-db", "x", "y"])?;
+    h.must_ok(&["SELECT", "0"])?;
+    let big = "x".repeat(size);
+    let many = |prefix: &str| -> Vec<String> { (0..size).map(|i| format!("{}{}", prefix, i)).collect() };
+    let send_many = |h: &mut H, head: &[&str], items: Vec<String>, per: usize| -> Result<(), String> {
+        for chunk in items.chunks(1024 * per) {
+            let mut a: Vec<Bytes> = head.iter().map(|x| b(x)).collect();
+            a.extend(chunk.iter().map(|x| b(x)));
+            let bytes = resp::cmd(&a);
+            let srv = h.srv.as_ref().unwrap();
+            let c = h.c.as_mut().unwrap();
+            srv.send_all(c, &bytes).map_err(|e| format!("{} ...: {:?}", head.join(" "), e))?;
+            let r = srv.await_reply(c, 400 + bytes.len() / 1024).map_err(|e| format!("{} ... ({} bytes): {:?}", head.join(" "), bytes.len(), e))?;
+            if r.is_err() {
+                return Err(format!("{} ... -> {}", head.join(" "), resp::show(&r)));
+            }
+        }
+        Ok(())
+    };
+    match SIZE_KINDS[kind] {
+        "string value" => h.must_ok(&["SET", "subject", &big])?,
+        "key name" => h.must_ok(&["SET", &big, "v"])?,
+        "list count" => send_many(h, &["RPUSH", "subject"], many("e"), 1)?,
+        "set count" => send_many(h, &["SADD", "subject"], many("m"), 1)?,
+        "hash count" => send_many(h, &["HSET", "subject"], (0..size).flat_map(|i| vec![format!("f{}", i), format!("v{}", i)]).collect(), 2)?,
+        "zset count" => send_many(h, &["ZADD", "subject"], (0..size).flat_map(|i| vec![format!("{}", i), format!("m{}", i)]).collect(), 2)?,
+        "list element length" => h.must_ok(&["RPUSH", "subject", "first", &big, "last"])?,
+        "hash field and value length" => h.must_ok(&["HSET", "subject", &big, &big, "f", "v"])?,
+        _ => h.must_ok(&["XADD", "subject", "1-1", "f", &big])?,
+    }
+    let ctx = json!({"mode": mode, "kind": SIZE_KINDS[kind], "size": size});
+    let ends = gate::counter(vh::BGSAVE_END);
+    let reply = h.calls(&[mode])?;
+    if reply.is_err() {
+        problems.push(json!({"problem": "save-refused", "ctx": ctx, "reply": resp::show(&reply)}));
+        return Ok(problems);
+    }
+    if mode == "BGSAVE" && h.wait_bgsave_done(ends + 1).is_err() {
+        problems.push(json!({"problem": "background-save-never-ended", "ctx": ctx}));
+        h.drop_server();
+        return Ok(problems);
+    }
+    match h.loader.load(&h.dump_path()) {
+        Ok(loaded) => {
+            let live = h.live();
+            if !same_dataset(&loaded, &live) {
+                let missing = live.keys().filter(|k| !loaded.contains_key(*k)).count();
+                problems.push(json!({"problem": "completed-dump-differs-from-the-dataset", "ctx": ctx, "keys_live": live.len(), "keys_loaded": loaded.len(), "keys_missing": missing}));
+            }
+        }
+        Err(e) => problems.push(json!({"problem": "completed-dump-does-not-load", "ctx": ctx, "error": e})),
+    }
+    Ok(problems)
+}
+
 // ------------------------------------------------------------------ (A) write faults and crash points
 
 fn dataset_cmds(which: usize) -> Vec<Vec<&'static str>> {
@@ -1039,6 +1115,29 @@ pub fn handle_factory() -> impl FnMut(&str, &Value, &mut WorkerIo) -> (Value, bo
                     Err(e) => json!({"error": e}),
                 }, false)
             }
+            "sizes" => {
+                let hh = h.as_mut().unwrap();
+                let mode = task["mode"].as_str().unwrap_or("SAVE").to_string();
+                let kindi = task["size_kind"].as_u64().unwrap_or(0) as usize;
+                let mut problems = Vec::new();
+                let mut cases = 0u64;
+                let mut error: Option<String> = None;
+                for size in boundary_sizes(thorough) {
+                    cases += 1;
+                    match run_sizes(hh, &mode, kindi, size) {
+                        Ok(p) => problems.extend(p),
+                        Err(e) => {
+                            error = Some(e);
+                            break;
+                        }
+                    }
+                }
+                hh.drop_server();
+                (match error {
+                    Some(e) => json!({"error": e}),
+                    None => json!({"cases": cases, "problems": problems}),
+                }, false)
+            }
             "crashpoints" => {
                 let hh = h.as_mut().unwrap();
                 let r = run_crashpoints(hh, task["mode"].as_str().unwrap_or("SAVE"), task["prev"].as_bool().unwrap_or(true));
@@ -1205,6 +1304,12 @@ pub fn parent(tier: &str) -> i32 {
             }
         }
     }
+    // (D)
+    for mode in ["SAVE", "BGSAVE"] {
+        for k in 0..SIZE_KINDS.len() {
+            tasks.push(json!({"kind": "sizes", "mode": mode, "size_kind": k, "thorough": thorough}));
+        }
+    }
     tasks.push(json!({"kind": "syncclock", "thorough": thorough}));
     // (C): ask a worker for the sizes, then partition
     let mut read_space = json!({});
@@ -1232,6 +1337,7 @@ pub fn parent(tier: &str) -> i32 {
     let mut schedules_run = 0u64;
     let mut sched_pauses = 0u64;
     let mut read_cases = 0u64;
+    let mut size_cases = 0u64;
     let mut shapes: BTreeSet<String> = BTreeSet::new();
     let mut samples: Vec<Value> = Vec::new();
     let mut per_family: BTreeMap<String, u64> = BTreeMap::new();
@@ -1286,6 +1392,21 @@ pub fn parent(tier: &str) -> i32 {
                             });
                         }
                     }
+                    "sizes" => {
+                        let n = v["cases"].as_u64().unwrap_or(0);
+                        size_cases += n;
+                        *per_family.entry("completed-saves-at-length-boundaries".to_string()).or_default() += n;
+                        if n == 0 {
+                            report.machinery_errors.push(format!("{}: no case run", t));
+                        }
+                        for p in v["problems"].as_array().cloned().unwrap_or_default() {
+                            report.deviations.push(Deviation {
+                                property: "C10".into(),
+                                sig: format!("C10|sizes|{}|{}|{}|{}", t["mode"].as_str().unwrap_or(""), p["ctx"]["kind"].as_str().unwrap_or(""), p["ctx"]["size"], p["problem"].as_str().unwrap_or("")),
+                                replay: json!({"kind": "sizes", "task": t, "detail": p}),
+                            });
+                        }
+                    }
                     "read" => {
                         read_cases += v["n"].as_u64().unwrap_or(0);
                         *per_family.entry("read-faults".to_string()).or_default() += v["n"].as_u64().unwrap_or(0);
@@ -1318,14 +1439,14 @@ pub fn parent(tier: &str) -> i32 {
     if samples.is_empty() {
         samples.push(json!({"note": "no sample"}));
     }
-    let evaluations = fault_points + crash_pauses + schedules_run + read_cases;
+    let evaluations = fault_points + crash_pauses + schedules_run + read_cases + size_cases;
     println!("  c10: write-fault points={} crash-point pauses={} schedules={} (pauses {}, {} distinct pause sequences) damaged files={}", fault_points, crash_pauses, schedules_run, sched_pauses, shapes.len(), read_cases);
     report.coverage = json!({
         "evaluations": evaluations, "distinct_nontrivial": evaluations,
-        "rule": "every case is distinct by construction (a different failing write / pause / schedule / damaged byte) and non-trivial (the fault was reached, the save thread paused, or the file differs from the valid dump). (A) for SAVE and BGSAVE x {fail once, fail from then on} x {previous dump present, absent}: every raw write n of the save as the failing write, alternating between two datasets: error reply (SAVE), dump byte-identical to before (or still absent), a following save of the same kind is accepted and its dump loads to the live dataset; the save paused at every raw write and before/after the rename with the file on disk compared at each pause. (B) the real save thread stepped through begin / per-key get, ttl, write / zset len-items / rename / end on a three-key dataset for 6 types x TTL {none, 100 s, 50 ms}: every placement of 0..1 (thorough 0..2) menu items (grow, change, shrink, empty, delete, replace by another type, re-create, EXPIRE, PERSIST, RENAME away / over, unrelated key, FLUSHALL, clock +1 s with sweeper pass, clock past the deadline) at every pause; the same with the save started by the real auto-save monitor thread; a second writer (SAVE, also after a change, and BGSAVE) at every pause with a 20 KB bystander; a synchronous SAVE parked on the event-loop thread with the clock moved at every per-key point. Oracle: at every pause the dump on disk is byte-identical to the previous one or loads completely and per-key consistently; the final dump loads, every key in it has a (value, TTL) pair the key had at one instant during the save (snapshots taken before the save and after every placed item), keys present throughout are in it, another BGSAVE is accepted afterwards. (C) every prefix and every single-byte substitution (quick: 22 values at the opcode/length bit patterns; thorough: all 255) of three valid dumps (all types and a TTL in two databases; 14-bit lengths; a 32-bit length, payload positions sparsely) loaded with RdbEngine::load: no panic, no process death, largest single allocation <= 4 x file size + 64 KiB + the largest one made while loading the undamaged file, < 3 s.",
+        "rule": "every case is distinct by construction (a different failing write / pause / schedule / damaged byte) and non-trivial (the fault was reached, the save thread paused, or the file differs from the valid dump). (A) for SAVE and BGSAVE x {fail once, fail from then on} x {previous dump present, absent}: every raw write n of the save as the failing write, alternating between two datasets: error reply (SAVE), dump byte-identical to before (or still absent), a following save of the same kind is accepted and its dump loads to the live dataset; the save paused at every raw write and before/after the rename with the file on disk compared at each pause. (B) the real save thread stepped through begin / per-key get, ttl, write / zset len-items / rename / end on a three-key dataset for 6 types x TTL {none, 100 s, 50 ms}: every placement of 0..1 (thorough 0..2) menu items (grow, change, shrink, empty, delete, replace by another type, re-create, EXPIRE, PERSIST, RENAME away / over, unrelated key, FLUSHALL, clock +1 s with sweeper pass, clock past the deadline) at every pause; the same with the save started by the real auto-save monitor thread; a second writer (SAVE, also after a change, and BGSAVE) at every pause with a 20 KB bystander; a synchronous SAVE parked on the event-loop thread with the clock moved at every per-key point. Oracle: at every pause the dump on disk is byte-identical to the previous one or loads completely and per-key consistently; the final dump loads, every key in it has a (value, TTL) pair the key had at one instant during the save (snapshots taken before the save and after every placed item), keys present throughout are in it, another BGSAVE is accepted afterwards. (C) every prefix and every single-byte substitution (quick: 22 values at the opcode/length bit patterns; thorough: all 255) of three valid dumps (all types and a TTL in two databases; 14-bit lengths; a 32-bit length, payload positions sparsely) loaded with RdbEngine::load: no panic, no process death, largest single allocation <= 4 x file size + 64 KiB + the largest one made while loading the undamaged file, < 3 s. (D) SAVE and BGSAVE without faults of datasets whose string value / key name / list, set, hash, zset element count / element, field, stream value length is 1, 63, 64, 16383, 16384, 16385, 65536 (thorough adds 62, 65, 255, 256, 16382, 65535, 65537), with bystander keys in several shards and another database: the completed dump loads and equals the live dataset.",
         "samples": samples, "exhaustive": true,
         "write_fault_points": fault_points, "crash_point_pauses": crash_pauses, "schedules": schedules_run, "schedule_pauses": sched_pauses,
-        "distinct_pause_sequences": shapes.iter().cloned().collect::<Vec<_>>(), "damaged_files_loaded": read_cases, "read_space": read_space, "per_family": per_family,
+        "distinct_pause_sequences": shapes.iter().cloned().collect::<Vec<_>>(), "damaged_files_loaded": read_cases, "completed_saves_at_length_boundaries": size_cases, "read_space": read_space, "per_family": per_family,
     });
     report.assumptions = vec![
         "a 'write' is a call of the RDB writer's raw write (the injection seam named by the property); the file system below it is real and not faulted; block-level reordering after power loss is not modelled".into(),
